@@ -90,8 +90,10 @@ func runPack(c *vlib.Ctx, i int, r *vlib.Rand) {
 		pn = vlib.Catch(func() { l = pk.Get(key) })
 		return
 	}
+	decoded := make([]list.AnyList, ncols)
 	for j, col := range cols {
 		l, pn := getCol(q, keys[j])
+		decoded[j] = l
 		if pn != nil {
 			c.Fail("StatGeneralPack.Get:panic", fmt.Sprintf("Get(%q) after Read panicked: %v", keys[j], pn), detail(nil))
 			return
@@ -187,6 +189,21 @@ func runPack(c *vlib.Ctx, i int, r *vlib.Rand) {
 					detail(map[string]interface{}{"sort_key": keys[sk], "asc": asc, "child_key": keys[ck], "child_asc": casc}))
 				return
 			}
+		}
+	}
+	// the sorted columns are new lists: changing them leaves the decoded columns they were
+	// selected from, and the lists that were put into the written pack, as they were
+	for j, col := range cols {
+		col.scribbleIn(res[j], r)
+	}
+	for j, col := range cols {
+		if msg := col.checkFiltered(decoded[j], ident); msg != "" {
+			c.Fail("StatGeneralPack."+method+":aliased", fmt.Sprintf("after changing every element of the sorted columns, the decoded column %q (%s) changed: %s", keys[j], col.name, strings.Replace(msg, "Filtering", method, 1)), detail(nil))
+			return
+		}
+		if msg := col.unchanged(); msg != "" {
+			c.Fail("StatGeneralPack."+method+":aliased", fmt.Sprintf("after changing every element of the sorted columns, the list put into the written pack as %q (%s) changed: %s", keys[j], col.name, msg), detail(nil))
+			return
 		}
 	}
 	c.Count("pack_sorts", 1)
